@@ -36,7 +36,11 @@ Meets(sa, sb) == \E j \in 1..Len(sa) : InSeq(sa[j], sb)
 \*   cp    copy.copy(e):      "ok" | "rewrite" | "fail"
 \*   kind  "builtin" | "user" | "glomdoc" (a documented glom error type raised by glom itself)
 Cls(id, more, exc, glom, rec, cp, kind) ==
-  [id |-> id, anc |-> <<id>> \o more, exc |-> exc, glom |-> glom, rec |-> rec, cp |-> cp, kind |-> kind]
+  [id |-> id, anc |-> <<id>> \o more, exc |-> exc, glom |-> glom, rec |-> rec, cp |-> cp, kind |-> kind,
+   truthy |-> TRUE]
+\*   truthy  bool(instance): FALSE for classes defining __len__ -> 0 or __bool__ -> False.  No law
+\*           mentions it: the truth value of an exception object must not influence anything.
+Falsy(c) == [c EXCEPT !.truthy = FALSE]
 
 BE == <<"BaseException">>
 EX == <<"Exception", "BaseException">>
@@ -73,6 +77,7 @@ SkipSet(skip, leafid) ==
     [] skip = "exception" -> <<"Exception">>
     [] skip = "keyerror"  -> <<"KeyError">>
     [] skip = "base"      -> <<"BaseException">>
+    [] skip = "empty"     -> <<>>                       \* skip_exc=(): given, and skips nothing
     [] OTHER              -> <<>>                       \* "absent"
 
 \* A context = one enclosing construct on the way from the fault leaf to the root.
@@ -175,7 +180,9 @@ Up(c, l, x, leafid) ==
 \*   skip_exc = kwargs.pop('skip_exc', () if default is _MISSING else GlomError)
 MechDefault(kw) == IF kw.default # "absent" THEN kw.default
                    ELSE IF kw.skip # "absent" THEN "none" ELSE "missing"
-MechSkipSet(kw, leafid) == IF kw.skip # "absent" THEN SkipSet(kw.skip, leafid)
+\* Mutant "falsy_skip_omitted": `kwargs.pop('skip_exc', None) or <default>` treats () as omitted
+MechSkipSet(kw, leafid) == IF kw.skip # "absent" /\ ~(Mutant = "falsy_skip_omitted" /\ kw.skip = "empty")
+                           THEN SkipSet(kw.skip, leafid)
                            ELSE IF MechDefault(kw) = "missing" THEN <<>> ELSE <<"GlomError">>
 \* ret = default        (the object itself; kw.default names which kind of object the caller
 \* passed: "obj" an opaque object, "list" a list, "dictT" a dict holding a T expression that
@@ -213,8 +220,10 @@ DoDebug(a)     == a
 \*      if err.args != e.args: err = e
 \* except Exception: err = e
 \* Mutants "copy_unguarded" / "ctor_rerun" are the mechanism before commits 113d6db / 5d8773a.
+\* Mutant "copy_hardcodes_base": TypeMatchError.__copy__ built a plain TypeMatchError (pre-875fb2e)
 DoCopy(a) ==
-  CASE a.cls.cp = "ok"      -> [a EXCEPT !.id = "copy"]
+  CASE a.cls.cp = "ok"      -> IF Mutant = "copy_hardcodes_base" /\ a.cls.id = "SubTypeMatch"
+                               THEN Raised(GlomDoc("TypeMatchError"), "copy") ELSE [a EXCEPT !.id = "copy"]
     [] a.cls.cp = "rewrite" -> IF Mutant = "ctor_rerun" THEN [a EXCEPT !.id = "copy", !.args = "diff"] ELSE a
     [] a.cls.cp = "fail"    -> IF Mutant = "copy_unguarded"
                                THEN [Raised(TypeErrorCls, "new") EXCEPT !.args = "diff"] ELSE a
@@ -230,14 +239,22 @@ DoWrap(a) ==
     [] a.cls.rec = "fail"    -> IF Mutant = "wrap_no_fallback"
                                 THEN [Raised(TypeErrorCls, "new") EXCEPT !.args = "diff"] ELSE a
 
+\* if err is not None: raise err
+\* Mutant "falsy_swallowed": `if err: raise err` -- a falsy error object is not raised and
+\* `return ret` fails with UnboundLocalError
+UnboundCls == Cls("UnboundLocalError", EX, TRUE, FALSE, "same", "ok", "builtin")
+RaiseErr(r) ==
+  IF Mutant = "falsy_swallowed" /\ IsRaised(r) /\ r.cls.glom /\ ~r.cls.truthy
+  THEN [Raised(UnboundCls, "new") EXCEPT !.args = "diff"] ELSE r
+
 TopOutcome(kw, a, leafid) ==
   LET b == TopBranch(kw, a, leafid) IN
   CASE b = "return" -> a
     [] b = "skip"   -> DoSkip(kw, a)
     [] b = "base"   -> DoBase(a)
     [] b = "debug"  -> DoDebug(a)
-    [] b = "copy"   -> DoCopy(a)
-    [] b = "wrap"   -> DoWrap(a)
+    [] b = "copy"   -> RaiseErr(DoCopy(a))
+    [] b = "wrap"   -> RaiseErr(DoWrap(a))
 
 \* ======================================================================================
 \* 4. LAWS  (from the property statement and glom()'s documentation; a = what reached the
@@ -340,8 +357,8 @@ TopReturn(k) == Top(k, "return", "TopReturn", x)
 TopSkip(k)   == Top(k, "skip", "TopSkip", DoSkip(k, x))
 TopBase(k)   == Top(k, "base", "TopBase", DoBase(x))
 TopDebug(k)  == Top(k, "debug", "TopDebug", DoDebug(x))
-TopCopy(k)   == Top(k, "copy", "TopCopy", DoCopy(x))
-TopWrap(k)   == Top(k, "wrap", "TopWrap", DoWrap(x))
+TopCopy(k)   == Top(k, "copy", "TopCopy", RaiseErr(DoCopy(x)))
+TopWrap(k)   == Top(k, "wrap", "TopWrap", RaiseErr(DoWrap(x)))
 TopLevel(k)  == TopReturn(k) \/ TopSkip(k) \/ TopBase(k) \/ TopDebug(k) \/ TopCopy(k) \/ TopWrap(k)
 
 Travel == Pass \/ CatchCoalesce \/ CatchOr \/ CatchAnd \/ CatchNot \/ CatchMatchDefault
